@@ -38,6 +38,7 @@ type TierOpts struct {
 	TimeoutMs   int      `json:"solver_timeout_ms"`
 	Explore     bool     `json:"explore"`
 	SchedBudget int      `json:"sched_budget"`
+	Livelock    bool     `json:"unwind_is_livelock"`
 	ChanScale   int      `json:"chan_scale"`
 	ChanScaleMin int     `json:"chan_scale_min"`
 	WallS       int      `json:"wall_s"`
@@ -97,6 +98,7 @@ type ReplayFile struct {
 	Readable map[string]string `json:"readable"`
 	Trace    []int64           `json:"trace"`
 	Params   map[string]int    `json:"params"`
+	Repeat   int               `json:"repeat,omitempty"` // native runs to try (schedule-dependent counterexamples)
 }
 
 func main() {
@@ -368,7 +370,7 @@ func cmdRun(args []string) int {
 				continue
 			}
 			opts := interp.Options{Workers: nw, Solver: "z3", TimeoutMs: 10000, Unwind: 64, StepBudget: 20_000_000, Trace: *trace,
-				KnownPanicSites: sites, Explore: to.Explore, SchedBudget: to.SchedBudget, ChanScale: to.ChanScale, ChanScaleMin: to.ChanScaleMin, Params: to.Params}
+				KnownPanicSites: sites, Explore: to.Explore, Livelock: to.Livelock, SchedBudget: to.SchedBudget, ChanScale: to.ChanScale, ChanScaleMin: to.ChanScaleMin, Params: to.Params}
 			if *tier == "thorough" {
 				opts.TimeoutMs = 60000
 			}
@@ -434,6 +436,9 @@ func cmdRun(args []string) int {
 				fmt.Fprintf(os.Stderr, "harness %s: VACUOUS, no assertion evaluated\n", h.Func)
 			}
 			rc := replayCtx{prop: prop, unit: u, harness: h.Func, params: to.Params}
+			if to.Explore {
+				rc.repeat = 40
+			}
 			for id, kv := range rep.Known {
 				he.Known = append(he.Known, id)
 				if _, ok := knownSeen[id]; !ok {
@@ -479,6 +484,9 @@ func cmdRun(args []string) int {
 					violationLines = append(violationLines, line)
 					fmt.Println(line)
 					fmt.Printf("  harness=%s kind=%s id=%s msg=%s native=%s\n", h.Func, v.Kind, v.ID, trunc(v.Msg, 300), detail)
+				} else if v.Kind == "livelock" {
+					fmt.Fprintf(os.Stderr, "harness %s: loop bound exceeded (%s) but non-termination not reproduced natively (%s): inconclusive\n", h.Func, trunc(v.Msg, 200), detail)
+					allExhaustive = false
 				} else {
 					he.Spurious = append(he.Spurious, fmt.Sprintf("%s %s: counterexample did not reproduce natively (%s); replay=%s", v.Kind, v.ID, detail, path))
 					fmt.Fprintf(os.Stderr, "SPURIOUS harness=%s kind=%s id=%s (%s) replay=%s\n", h.Func, v.Kind, v.ID, detail, path)
@@ -624,12 +632,13 @@ type replayCtx struct {
 	unit    UnitCfg
 	harness string
 	params  map[string]int
+	repeat  int
 }
 
 // writeReplay turns a solver model into a replay file.
 func writeReplay(rc replayCtx, v *interp.Violation, n int) string {
 	rf := ReplayFile{Property: rc.prop, Unit: rc.unit.Name, Pkg: rc.unit.Pkg, Files: rc.unit.Files, Harness: rc.harness, Kind: v.Kind, ID: v.ID, Msg: v.Msg,
-		Values: map[string]string{}, Readable: map[string]string{}, Trace: v.Trace, Params: rc.params}
+		Values: map[string]string{}, Readable: map[string]string{}, Trace: v.Trace, Params: rc.params, Repeat: rc.repeat}
 	if v.Kind == "known" {
 		rf.Kind = "known"
 	}
@@ -742,17 +751,68 @@ func replayNative(path string, verbose bool) (bool, string) {
 	ob, _ := json.Marshal(map[string]interface{}{"Replace": ov})
 	ovPath := filepath.Join(tmp, "overlay.json")
 	os.WriteFile(ovPath, ob, 0o644)
-	cmd := exec.Command("go", "test", "-vet=off", "-count=1", "-timeout", "120s", "-run", "^TestVerifReplay$", "-v", "-overlay", ovPath, rf.Pkg)
-	cmd.Dir = repoDir
-	cmd.Env = append(os.Environ(), "GOFLAGS=-mod=mod", "GOPROXY=off", "GOSUMDB=off", "GOTOOLCHAIN=local", "VERIF_REPLAY="+path)
+	bin := filepath.Join(tmp, "replay.test")
+	env := append(os.Environ(), "GOFLAGS=-mod=mod", "GOPROXY=off", "GOSUMDB=off", "GOTOOLCHAIN=local", "VERIF_REPLAY="+path)
 	for k, v := range rf.Params {
-		cmd.Env = append(cmd.Env, fmt.Sprintf("VERIF_PARAM_%s=%d", k, v))
+		env = append(env, fmt.Sprintf("VERIF_PARAM_%s=%d", k, v))
 	}
-	out, _ := cmd.CombinedOutput()
-	txt := string(out)
-	if verbose {
-		fmt.Fprintln(os.Stderr, "---- native replay output ----\n"+trunc(txt, 4000))
+	build := exec.Command("go", "test", "-vet=off", "-c", "-o", bin, "-overlay", ovPath, rf.Pkg)
+	build.Dir = repoDir
+	build.Env = env
+	if out, err := build.CombinedOutput(); err != nil {
+		return false, "native build failed: " + trunc(lastLines(string(out), 6), 600)
 	}
+	runOnce := func() (bool, string) {
+		cmd := exec.Command(bin, "-test.run", "^TestVerifReplay$", "-test.v", "-test.timeout", "120s", "-test.count", "1")
+		cmd.Dir = pkgDir
+		cmd.Env = env
+		out, _ := cmd.CombinedOutput()
+		txt := string(out)
+		if verbose {
+			fmt.Fprintln(os.Stderr, "---- native replay output ----\n"+trunc(txt, 4000))
+		}
+		return judgeReplay(&rf, txt)
+	}
+	repeat := rf.Repeat
+	if repeat < 1 {
+		repeat = 1
+	}
+	// schedule-dependent counterexamples: the native scheduler is not controlled,
+	// so the run is repeated (8 at a time) until one run shows the violation
+	ok, detail := false, ""
+	for done := 0; done < repeat && !ok; {
+		n := 8
+		if repeat-done < n {
+			n = repeat - done
+		}
+		type res struct {
+			ok bool
+			d  string
+		}
+		ch := make(chan res, n)
+		for i := 0; i < n; i++ {
+			go func() { o, d := runOnce(); ch <- res{o, d} }()
+		}
+		for i := 0; i < n; i++ {
+			r := <-ch
+			if r.ok && !ok {
+				ok, detail = true, r.d
+			} else if !ok {
+				detail = r.d
+			}
+		}
+		done += n
+		if ok && repeat > 1 {
+			detail += fmt.Sprintf(" [within %d native runs]", done)
+		} else if !ok && repeat > 1 {
+			detail += fmt.Sprintf(" [in none of %d native runs]", done)
+		}
+	}
+	return ok, detail
+}
+
+// judgeReplay decides from the output of one native run whether it shows the violation.
+func judgeReplay(rf *ReplayFile, txt string) (bool, string) {
 	var failed []string
 	result := ""
 	for _, l := range strings.Split(txt, "\n") {
@@ -797,9 +857,9 @@ func replayNative(path string, verbose bool) (bool, string) {
 			return true, result
 		}
 		return false, "no panic natively (result: " + result + ")"
-	case "deadlock":
+	case "deadlock", "livelock":
 		if result == "hang" || strings.HasPrefix(crashed, "hang") || strings.Contains(crashed, "all goroutines are asleep") {
-			return true, "native run hangs"
+			return true, "native run does not terminate (20 s)"
 		}
 		return false, "no hang natively (result: " + result + " " + crashed + ")"
 	case "known":
